@@ -16,7 +16,7 @@ EXHAUSTIVE = {'quick': False, 'thorough': False}
 TECHNIQUE = 'Coq proof (chunk-independence by fold_left_app, round trip, region confinement, refusal incl. size_t overflow pairs) + correspondence on the configuration grid'
 LEVEL_TEXT = ('Properties_C10.v: for every data image, placement, checksum step function and chunk size >= 1 the checksum computed from the medium equals the fold of the step over the '
               'data image (chunk independence); store then validate = SUCCESS and fetch returns the image; part accesses beyond the data size are refused with an empty access log; '
-              'all logged accesses of every operation lie inside the region; alteration detected whenever the algorithm separates the images.')
+              'every logged access of store/store_part, validate, fetch/fetch_part and reset lies inside the checksum-plus-data region for EVERY medium (any image, any read/write fault scripts, any chunk size) and every argument, successful or not (C10_region_*); alteration detected whenever the algorithm separates the images.')
 LEVEL_NOTE = 'Trusted: Coq kernel; hand model of persistent-storage.c (correspondence-tested on the grid); harness medium. No axioms.'
 
 U64 = 2**64 - 1
